@@ -1401,7 +1401,21 @@ impl JsValue {
     /// Converts a value to a 16-bit floating point.
     #[cfg(feature = "float16")]
     pub fn to_f16(&self, context: &mut Context) -> JsResult<float16::f16> {
-        self.to_number(context).map(float16::f16::from_f64)
+        self.to_number(context).map(|number| {
+            // `float16::f16::from_f64` rounds twice on x86 (f64 -> f32 -> f16), which is wrong when the
+            // intermediate `f32` lands exactly on an `f16` tie. Narrow to `f32` with "round to odd"
+            // (truncate toward zero, then make the last bit sticky): 24 bits of intermediate precision
+            // are enough for the final round-to-nearest-even to 11 bits to be correctly rounded.
+            let mut narrowed = number as f32;
+            if !number.is_nan() && f64::from(narrowed) != number {
+                let mut bits = narrowed.to_bits();
+                if f64::from(narrowed).abs() > number.abs() {
+                    bits -= 1;
+                }
+                narrowed = f32::from_bits(bits | 1);
+            }
+            float16::f16::from_f32(narrowed)
+        })
     }
 
     /// Converts a value to a 32 bit floating point.
